@@ -790,17 +790,22 @@ class Model(Object):
                 forward = reaction.forward_variable
                 reverse = reaction.reverse_variable
 
-                if context:
-                    obj_coef = reaction.objective_coefficient
-
-                    if obj_coef != 0:
+                obj_coef = reaction.objective_coefficient
+                if obj_coef != 0:
+                    if context:
                         context(
                             partial(
                                 self.solver.objective.set_linear_coefficients,
                                 {forward: obj_coef, reverse: -obj_coef},
                             )
                         )
+                    # the objective must not keep terms in variables that leave
+                    # the problem
+                    self.solver.objective.set_linear_coefficients(
+                        {forward: 0, reverse: 0}
+                    )
 
+                if context:
                     context(partial(self._populate_solver, [reaction]))
                     context(partial(setattr, reaction, "_model", self))
                     context(partial(self.reactions.add, reaction))
